@@ -710,12 +710,11 @@ def run(chk):   # noqa
     _nilfold_rule(chk, prog)
 
 
-def _nilfold_rule(chk, prog):
+def _nilfold_rule(chk, prog, rule="C02-NILFOLD"):
     """`if` and `while` recognise (= nil X) / (not= nil X), compile X alone and branch on it with jump-if-nil /
     jump-if-not-nil.  When X is a constant the branch is chosen at compile time; for the nil forms the choice depends
     on `X is nil`, and only for the plain form on X's truthiness.  Folding a nil form through janet_truthy treats the
     constant false like nil, so the same source gives different results depending on whether X is a constant."""
-    rule = "C02-NILFOLD"
     chk.rule(rule, "where a special form has replaced its condition by the operand of (= nil X) / (not= nil X), the constant's truthiness decides the branch only on paths that exclude both nil forms")
     n = 0
     for fn in prog.tus["specials.c"].funcs.values():
